@@ -433,15 +433,22 @@ func (h *Headers) MarshalUnprotected() ([]byte, error) {
 // UnmarshalFromRaw decodes Protected from RawProtected and Unprotected from
 // RawUnprotected.
 func (h *Headers) UnmarshalFromRaw() error {
-	if err := decMode.Unmarshal(h.RawProtected, &h.Protected); err != nil {
+	// Protected and Unprotected are replaced together, and only when both
+	// buckets and the rules that span them are valid.
+	decoded := Headers{
+		RawProtected:   h.RawProtected,
+		RawUnprotected: h.RawUnprotected,
+	}
+	if err := decMode.Unmarshal(h.RawProtected, &decoded.Protected); err != nil {
 		return fmt.Errorf("cbor: invalid protected header: %w", err)
 	}
-	if err := decMode.Unmarshal(h.RawUnprotected, &h.Unprotected); err != nil {
+	if err := decMode.Unmarshal(h.RawUnprotected, &decoded.Unprotected); err != nil {
 		return fmt.Errorf("cbor: invalid unprotected header: %w", err)
 	}
-	if err := h.ensureIV(); err != nil {
+	if err := decoded.ensureIV(); err != nil {
 		return err
 	}
+	h.Protected, h.Unprotected = decoded.Protected, decoded.Unprotected
 	return nil
 }
 
